@@ -54,6 +54,26 @@ Theorem C08_option_free_is_plain :
 Proof. intros ct. exact (option_free_is_plain ct true). Qed.
 Print Assumptions C08_option_free_is_plain.
 
+(* the projection commutes with containers: a List[<dataclass>] / Dict[str, <dataclass>] field is
+   projected element by element, every element receiving the same flags and keyword values *)
+Theorem C08_list_elementwise :
+  forall (ct: list cls) (nailed spec: bool) (items: list node) (members: list nat) (outer: flags) (a: kwv) (pd: option ns),
+    pack_h ct nailed spec (NList items) members outer a pd =
+    match go_items (fun x => pack_h ct nailed spec x members outer a pd) items with
+    | Some l => Some (POpq (S (List.length items)), PList l)
+    | None => None end.
+Proof. exact pack_h_list. Qed.
+Print Assumptions C08_list_elementwise.
+
+Theorem C08_dict_elementwise :
+  forall (ct: list cls) (nailed spec: bool) (items: list (string * node)) (members: list nat) (outer: flags) (a: kwv) (pd: option ns),
+    pack_h ct nailed spec (NDict items) members outer a pd =
+    match go_entries (fun x => pack_h ct nailed spec x members outer a pd) items with
+    | Some l => Some (POpq (S (List.length items)), PDict l)
+    | None => None end.
+Proof. exact pack_h_dict. Qed.
+Print Assumptions C08_dict_elementwise.
+
 (* ---- codec path: BasicEncoder(cls, default_dialect=dd).encode(x) ---- *)
 Definition C08_codec_full : Prop :=
   forall (ct: list cls) (n: node) (cid: nat) (dd: option ns),
